@@ -279,7 +279,9 @@ def l3_case(args):
             per_file[file_of[r["name"]]].append(r)      # all records of a read stay in one file
         bams = []
         for fi, rr in enumerate(per_file):
-            bams.append(syn.write_bam(w, os.path.join(d, "f%d.bam" % fi), reads=rr, seqs=seqs))
+            # the files of the experiment share their base name (rep0/aligned.bam, rep1/aligned.bam, ...): the labels belong to the paths
+            os.makedirs(os.path.join(d, "rep%d" % fi), exist_ok=True)
+            bams.append(syn.write_bam(w, os.path.join(d, "rep%d" % fi, "aligned.bam"), reads=rr, seqs=seqs))
         argv += ["--bam"] + bams + ["--labels"] + ["L%d" % (fi + 1) for fi in range(nfiles)] + ["--read_group", "file_name"]
         if himem:
             argv += ["--high_memory"]
